@@ -402,7 +402,9 @@ func randStmtParams(r *rand.Rand) map[string]interface{} {
 		"d": func() interface{} {
 			return map[string]interface{}{"duration": []interface{}{"10m", "1h30m", int64(90000000000), "-5m", int64(0), "bogus", "1"}[r.Intn(7)]}
 		},
-		"n": func() interface{} { return []interface{}{int64(1), int64(42), int64(0), int64(-5), int64(2147483648), int64(9223372036854775807), int64(-9223372036854775808)}[r.Intn(7)] },
+		"n": func() interface{} {
+			return []interface{}{int64(1), int64(42), int64(0), int64(-5), int64(2147483648), int64(9223372036854775807), int64(-9223372036854775808)}[r.Intn(7)]
+		},
 		"f": func() interface{} { return float64(r.Intn(2000)-1000) / 8 },
 		"b": func() interface{} { return r.Intn(2) == 0 },
 	}
